@@ -9,8 +9,8 @@ theorem eval_assert_lt (Γ chk) (ρ : Env) (i c : Nat) (body : Expr) (hix : ρ.i
       = if i < c then eval Γ chk ρ body else .error (.panic "assertion failed") := by
   by_cases h : i < c <;> simp [eval, eval_usz Γ chk ρ c hc, Env.get, hix, evalBin, h]
 
-/-- in-range index (or scalar field): the setter body yields a value that fits the storage and, for pairwise
-    disjoint range lists, is the reference write -/
+/-- in-range index (or scalar field): the setter body yields a value that fits the storage, for pairwise disjoint range
+    lists is the reference write, and for every list leaves the positions it does not cover alone -/
 theorem eval_setterBody (Γ : CustomEnv) (chk : Bool) (B : Base) (fd : FieldDef) (raw i : Nat) (fv : Val) (v : Nat)
     (hB : B.WF) (hok : FieldOk B fd) (hwide : fd.totalBits ≤ B.internal) (hrawlt : raw < 2 ^ B.internal)
     (hi : ∀ c s, fd.array = some (c, s) → i < c) (harg : ArgOk Γ fd fv v) :
@@ -18,7 +18,8 @@ theorem eval_setterBody (Γ : CustomEnv) (chk : Bool) (B : Base) (fd : FieldDef)
       eval Γ chk { raw := .int B.W raw, index := .int .usize i, fieldValue := fv } e = .ok (.int B.W x) ∧
       x < 2 ^ B.internal ∧
       (pairwiseDisjoint fd.ranges = true → x = writeSpec B.internal raw v (offOf i fd.stride) fd.ranges) ∧
-      (raw < 2 ^ B.exposed → x < 2 ^ B.exposed) := by
+      (raw < 2 ^ B.exposed → x < 2 ^ B.exposed) ∧
+      (∀ p, fd.ranges.any (·.covers (offOf i fd.stride) p) = false → x.testBit p = raw.testBit p) := by
   obtain ⟨e, he, x, hev, hx, hsp⟩ := eval_setterNewRawValue Γ chk
     { raw := .int B.W raw, index := .int .usize i, fieldValue := fv } B fd raw i fv v hB hok hwide rfl hrawlt (fun _ => rfl) rfl hi harg
   cases ha : fd.array with
